@@ -742,7 +742,8 @@ def _denotes(v):
 
 def _key_fields(k, private: bool) -> list:
     out = [k.p, _denotes(k.g), _denotes(k.h)]
-    return out + [k.n, k.t1] if private else out
+    # a key that came back as another kind of object has no private part: reported as "absent", not a harness error
+    return out + [getattr(k, "n", "absent"), getattr(k, "t1", "absent")] if private else out
 
 
 def _check_key_roundtrip(c: _Collector, alg, sk) -> None:
